@@ -200,12 +200,24 @@ class Ctx:
         argv += list(extra_args or [])
         argv.append(module)
         t = time.time()
-        try:
-            p = subprocess.run(argv, cwd=d, timeout=timeout, stdout=subprocess.PIPE,
-                               stderr=subprocess.STDOUT, text=True)
-        except subprocess.TimeoutExpired:
-            subprocess.run(['pkill', '-f', d], check=False)
-            raise Infra('TLC timeout after %ss on %s/%s' % (timeout, module, cfg))
+        for attempt in range(3):
+            try:
+                p = subprocess.run(argv, cwd=d, timeout=timeout, stdout=subprocess.PIPE,
+                                   stderr=subprocess.STDOUT, text=True)
+            except subprocess.TimeoutExpired:
+                subprocess.run(['pkill', '-f', d], check=False)
+                raise Infra('TLC timeout after %ss on %s/%s' % (timeout, module, cfg))
+            # a JVM killed by a signal (memory pressure from other jobs on the machine) or dying of an out-of-memory /
+            # internal error says nothing about the specification: start it again (fresh metadir) before giving up
+            transient = (p.returncode < 0 or 'java.lang.OutOfMemoryError' in p.stdout
+                         or 'There is insufficient memory for the Java Runtime' in p.stdout
+                         or (re.search(r'TLC threw an unexpected exception', p.stdout) is not None
+                             and 'StackOverflowError' not in p.stdout))
+            if not transient or attempt == 2:
+                break
+            self.log('TLC run of %s/%s ended abnormally (rc=%s), retrying' % (module, cfg, p.returncode))
+            shutil.rmtree(os.path.join(d, 'md'), ignore_errors=True)
+            time.sleep(5 + 10 * attempt)
         res = TLCResult(p.stdout, p.returncode, time.time() - t)
         res.dir = d
         if ('Parsing or semantic analysis failed' in p.stdout or 'java.lang.OutOfMemoryError' in p.stdout
